@@ -288,7 +288,7 @@ pub fn run(ctx: &Ctx, st: &mut Stats) {
         }
     }
     // fractional day offsets clustered at half-second boundaries, bases over the whole range
-    let n = ctx.tier.pick(2_000, 3_000_000, 60_000_000);
+    let n = ctx.tier.pick(2_000, 3_000_000, ctx.big(60_000_000, 400_000_000));
     ctx.par(st, "random: base x day-offset clustered at k s + 0.5 s +- 20 us", false, 0, n, |st, _, rng| {
         let base_s = rng.range_i64(TS_MIN / SEC, ORA_MAX / SEC);
         let off_us = match rng.below(5) {
@@ -304,7 +304,7 @@ pub fn run(ctx: &Ctx, st: &mut Stats) {
         let c = C::af(k, a, f);
         st.eval_h(c.hash(k as u64), &c, check);
     });
-    let n2 = ctx.tier.pick(500, 1_000_000, 20_000_000);
+    let n2 = ctx.tier.pick(500, 1_000_000, ctx.big(20_000_000, 200_000_000));
     ctx.par(st, "random: oracle-date x interval / difference / conversion", false, 0, n2, |st, _, rng| {
         let o = rng.range_i64(TS_MIN / SEC, ORA_MAX / SEC) * SEC;
         let c = match rng.below(6) {
